@@ -822,3 +822,19 @@ package rlwe
 //@   requires indom(ctIn.Value[0], ctIn.IsNTT) && indom(ctIn.Value[1], ctIn.IsNTT)
 //@   ensures isnil(err) && val(opOut.Value[0]) == old(val(ctIn.Value[0])) && val(opOut.Value[1]) == old(val(ctIn.Value[1]))
 //@   ensures iff(opOut.IsNTT, old(ctIn.IsNTT)) && indom(opOut.Value[0], opOut.IsNTT) && indom(opOut.Value[1], opOut.IsNTT)
+
+// ---- partial traces on parameters WITHOUT auxiliary modulus (property C11: no restriction to parameter sets
+// ---- with P is documented for inner sums): no nil pointer is dereferenced (finding F65: the hoisted path
+// ---- dereferenced the absent P ring for every n > 1)
+//@ afunc Evaluator.InnerFunction
+//@   trusted the tree of rotations and user callbacks is not under contract (C11: not decided); nothing is assumed about what it writes into the receiver
+//@   clobbers opOut
+
+//@ afunc Evaluator.PartialTracesSum#noP
+//@   property C11
+//@   nilsafe
+//@   bounded two terms (n = 2), loops unwound; the obligation of interest (no nil dereference) does not depend on n
+//@   unwind 4
+//@   case n == 2 && len(eval.params.pi) == 0 ; set eval.params.ringP = nil
+//@   requires offset != 0 && len(ctIn.Value) == 2 && len(opOut.Value) == 2 && len(ctIn.Value[0].Coeffs) >= 1 && len(ctIn.Value[1].Coeffs) == len(ctIn.Value[0].Coeffs)
+//@   ensures true
